@@ -59,6 +59,9 @@ def check_inventory(ctx, res, config="all"):
         key = "%s->%s" % c
         if c in EXPECTED_UNSAFE_CALLS:
             res.ok("R4-unsafe-inventory", key, {"kind": "unsafe call"})
+        elif c[1] in EXPECTED_ASM and (facts.body(c[0]) is not None and not facts.body(c[0]).exported()):
+            # a block loop called from another private function: R4-C discovers and audits every call site of the block loops
+            res.ok("R4-unsafe-inventory", key, {"kind": "unsafe call", "audited_by": "R4-asm-call-site (call sites are discovered, not listed)"})
         else:
             bb = facts.body(c[0])
             res.fail(Finding("R4-unclassified-unsafe", key, "unsafe operation outside the audited inventory: %s in %s; its memory safety is not shown" % (c[1], c[0]), bb, file=None if bb else "src"))
@@ -284,7 +287,26 @@ def analyse_block_loop(b, t, op_mn):
         errs.append("the block counter is not size / %d (the stride of the template): %s" % (S, core.rv_str(cdiv) if cdiv else "no division found"))
     else:
         a_roots = core.Flow(b).roots_of_operand(cdiv["a"])
-        if not any(r[0] == "param" and r[1] == 3 for r in a_roots):
+        d_atoms = Atoms(b).of_operand(cdiv["a"])
+        int_params = [r[1] for r in a_roots if r[0] == "param" and b.local_ty(r[1]) in ("usize", "u64")]
+        if int_params:
+            info["shape"] = ("raw", int_params[0])
+        elif calls_of(d_atoms) == {"len"} and len(params_of(d_atoms)) == 1 and not consts_of(d_atoms):
+            # the helper takes slices: the size is len() of one of them and the pointers are taken inside
+            sp = next(iter(params_of(d_atoms)))
+            fl_ = core.Flow(b, transparent=set())
+            prm = {}
+            for role, k in (("mut", pm), ("const", pc)):
+                for r in fl_.roots_of_operand(operands[k]["value"]):
+                    if r[0] == "call" and (r[2] or "").endswith("::as_mut_ptr" if role == "mut" else "::as_ptr"):
+                        src_atoms = Atoms(b).of_operand(b.blocks[r[1]]["term"]["args"][0])
+                        if len(params_of(src_atoms)) == 1 and not calls_of(src_atoms) - {"deref", "deref_mut"}:
+                            prm[role] = next(iter(params_of(src_atoms)))
+            if set(prm) == {"mut", "const"} and sp in prm.values():
+                info["shape"] = ("slices", prm["mut"], prm["const"], sp)
+            else:
+                errs.append("the pointer operands are not as_mut_ptr()/as_ptr() of the slice parameters whose len() is the size")
+        else:
             errs.append("the block counter is not derived from the size parameter")
     asm_bb = [i for i, tt in b.terms("asm")][0]
     tl, atoms = tests_of(b)
@@ -422,15 +444,52 @@ def _equiv_len(b, m_op, n_op, m_atoms, n_atoms):
     return False
 
 
+def _slices_same_len(b, atoms, x_op, y_op):
+    """is the slice x (the one written through) of the same length as slice y by construction: x = split_at[_mut](k).0 with
+    k = len(y), or x and y are lower parts of splits at the same k"""
+    fl = core.Flow(b, transparent={"deref", "deref_mut", "as_ref", "as_mut"})
+    xr, yr = fl.roots_of_operand(x_op), fl.roots_of_operand(y_op)
+    for r in xr:
+        if r[0] == "call" and ((r[2] or "").endswith("split_at_mut") or (r[2] or "").endswith("split_at")):
+            if not r[3] or r[3][0] != "0":
+                return False, "pointer is taken from the upper part of a split"
+            k_op = b.blocks[r[1]]["term"]["args"][1]
+            k_atoms = atoms.of_operand(k_op)
+            for q in yr:
+                if q[0] == "param" and not b.local_ty(q[1]).startswith("&mut"):
+                    if calls_of(k_atoms) == {"len"} and params_of(k_atoms) == {q[1]} and not consts_of(k_atoms):
+                        return True, "split_at(len(param %d)).0 vs param %d" % (q[1], q[1])
+                if q[0] == "call" and ((q[2] or "").endswith("split_at") or (q[2] or "").endswith("split_at_mut")) and q[3] and q[3][0] == "0":
+                    k2 = b.blocks[q[1]]["term"]["args"][1]
+                    if _equiv_len(b, k_op, k2, k_atoms, atoms.of_operand(k2)):
+                        return True, "both are split_at(%s).0" % tests._short(k_atoms)
+            return False, "the split point %s is not the other slice's length" % tests._short(k_atoms)
+    return False, "cannot identify how the written slice was cut"
+
+
 def check_block_loop_callers(ctx, res, config="all"):
     facts = ctx.facts(config)
     n = 0
-    for caller, target in (("biguint::addition::__add2", "schoolbook_add_assign_x86_64"), ("biguint::subtraction::sub2", "schoolbook_sub_assign_x86_64")):
+    shapes = {}
+    for path, mn in (("biguint::addition::schoolbook_add_assign_x86_64", "adc"), ("biguint::subtraction::schoolbook_sub_assign_x86_64", "sbb")):
+        hb = facts.body(path)
+        if hb is not None:
+            asms = [(i, t) for i, t in hb.terms("asm")]
+            if len(asms) == 1:
+                errs_, info_ = analyse_block_loop(hb, asms[0][1], mn)
+                shapes[path.split("::")[-1]] = info_.get("shape", ("raw", 3))
+    pairs = []
+    for target in ("schoolbook_add_assign_x86_64", "schoolbook_sub_assign_x86_64"):
+        for cb in facts.bodies:
+            if any(callee_name(t) == target and i in cb.live_blocks() for i, t in cb.calls()):
+                pairs.append((cb.path, target))
+    for caller, target in pairs:
         b = facts.body(caller)
         if b is None:
             res.fail(Finding("R4-anchor-lost", caller, "caller not found", file="src", line=0))
             continue
         atoms = Atoms(b)
+        shape = shapes.get(target, ("raw", 3))
         for i, t in b.calls():
             if callee_name(t) != target or i not in b.live_blocks():
                 continue
@@ -438,7 +497,18 @@ def check_block_loop_callers(ctx, res, config="all"):
             errs = []
             fl = core.Flow(b, transparent=set())
             details = []
-            for ai, want in ((0, "as_mut_ptr"), (1, "as_ptr")):
+            if shape[0] == "slices":
+                _, p_mut, p_const, p_size = shape
+                x_op, y_op = t["args"][p_mut - 1], t["args"][p_const - 1]
+                if p_size == p_const:
+                    good, why = _slices_same_len(b, atoms, x_op, y_op)
+                else:
+                    good, why = _slices_same_len(b, atoms, y_op, x_op)
+                if good:
+                    details.append(why)
+                else:
+                    errs.append("slice lengths: %s" % why)
+            for ai, want in ((0, "as_mut_ptr"), (1, "as_ptr")) if shape[0] == "raw" else ():
                 roots = fl.roots_of_operand(t["args"][ai])
                 ok = False
                 for r in roots:
@@ -494,6 +564,56 @@ def check_block_loop_callers(ctx, res, config="all"):
     if n < 2:
         res.fail(Finding("R4-anchor-lost", "block-loop-callers", "only %d call sites of the block loops found" % n, file="src", line=0))
     res.clause("R4-C: both pointers passed to a block loop cover exactly `len` digits by construction (split_at(len).0 / len() of the slice) and the returned (carry, done) feed the scalar tail")
+
+
+def _fold_remainder_invariant(facts, cb, call_bb, t, hl, dv):
+    """P3: the call sits in the accumulator closure of `Iterator::fold(0, |rem, x| div_wide(rem, x, d).1)`: hi is the accumulator
+    (closure parameter 2), the closure returns the remainder of this very kind of call with the same captured divisor, the
+    fold starts at the constant 0, and the captured divisor is shown non-zero in the parent before the fold"""
+    from . import r3
+
+    if not cb.is_param(hl) or hl != 2:
+        return None
+    # the closure returns .1 of div_wide/div_half calls on the same divisor
+    rr = core.Flow(cb, transparent=set()).roots_of_place({"local": 0, "proj": []})
+    if not rr or not all(r[0] == "call" and (r[2] or "").split("::")[-1] in ("div_wide", "div_half") and r[3][-1:] == ("1",) for r in rr):
+        return None
+    dat = Atoms(cb).of_operand(dv)
+    caps = [a for a in dat if a[0] == "param" and a[1] == 1 and a[2]]
+    if len(caps) != 1 or calls_of(dat) or consts_of(dat):
+        return None
+    for r in rr:
+        tt = cb.blocks[r[1]]["term"]
+        if Atoms(cb).of_operand(tt["args"][2]) != dat:
+            return None
+    env = r3.closure_env(facts, cb)
+    if not env:
+        return None
+    pb, rv, cbb = env
+    try:
+        idx = int(caps[0][2][0])
+    except ValueError:
+        return None
+    if idx >= len(rv["ops"]):
+        return None
+    # the closure value must be the function argument of a fold starting at 0
+    clo_local = None
+    for i_, si_, s_ in pb.stmts():
+        if s_.get("rv") is rv:
+            clo_local = s_["place"]["local"]
+    folds = []
+    for i_, tt in pb.calls():
+        if callee_name(tt) == "fold" and len(tt["args"]) == 3 and i_ in pb.live_blocks():
+            fr_ = core.Flow(pb).roots_of_operand(tt["args"][2])
+            if op_local(tt["args"][2]) == clo_local or any(r_[0] == "local" and r_[1] == clo_local for r_ in fr_):
+                folds.append((i_, tt))
+    if len(folds) != 1 or op_const(folds[0][1]["args"][1]) != 0:
+        return None
+    fake = {"args": [None, rv["ops"][idx]], "span": t["span"]}
+    st, det = r3.divisor_status(facts, pb, folds[0][0], fake)
+    if st in ("guarded", "const-nonzero"):
+        return "P3: accumulator of fold(0, ..) holding remainders of the same captured divisor, divisor != 0 in %s" % pb.path.split("::")[-1]
+    return None
 
 
 def check_div_wide(ctx, res, config="all"):
@@ -633,6 +753,8 @@ def check_div_wide(ctx, res, config="all"):
                                     dz = True
                     if dz:
                         ok = "P2: hi is 0 or a previous remainder of the same divisor, divisor != 0"
+            if ok is None and cb.kind == "Closure":
+                ok = _fold_remainder_invariant(facts, cb, i, t, hl, dv)
             if ok:
                 res.ok("R4-div-precondition", key, {"by": ok})
             else:
@@ -912,6 +1034,8 @@ def eval_local(b, l, env, depth):
             return eval_int(b, rv["op"], env, depth)
         if k in ("ref", "copyforderef"):
             return eval_int(b, {"k": "copy", "place": rv["place"]}, env, depth)
+        if k == "aggregate" and rv.get("akind") == "tuple":
+            return tuple(eval_int(b, o, env, depth) for o in rv["ops"])
         if k == "cast" and rv["ck"] == "IntToInt":
             v = int(eval_int(b, rv["op"], env, depth))
             to = rv.get("to", "")
@@ -961,6 +1085,12 @@ def eval_local(b, l, env, depth):
             if nm == "max":
                 return max(args)
             return args[0]
+        # a small private function of the crate (an extracted length computation): evaluate its return value on the arguments
+        fn_ = callee_fn(t)
+        cb = b.facts.body(fn_["path"]) if fn_ and fn_.get("local") and fn_.get("path") and getattr(b, "facts", None) is not None else None
+        if cb is not None and cb.kind in ("Fn", "AssocFn") and len(t["args"]) == cb.arg_count and depth < 30 and len(cb.blocks) <= 60:
+            cenv = {k_ + 1: a_ for k_, a_ in enumerate(args)}
+            return eval_local(cb, 0, cenv, depth + 5)
         raise CantEval("call " + str(nm))
     raise CantEval("def")
 
